@@ -521,103 +521,3 @@ Proof.
         inversion Hrun; subst st' e; apply Hstop; auto; discriminate.
 Qed.
 
-(* ---------------------------------------------------------------- the initial state *)
-Lemma count_len_empty : forall base n l, l <> 0 -> count_len aempty base n l = 0.
-Proof.
-  intros base n l Hl. induction n as [|k IH]; cbn [count_len]; [reflexivity|].
-  rewrite IH, aget_empty, hc_len_0. replace (0 =? l) with false by lia. reflexivity.
-Qed.
-
-Lemma ex_dec_empty : forall n L, ex_dec aempty n L = 0.
-Proof.
-  intros n L. induction n as [|k IH]; cbn [ex_dec]; [reflexivity|]. cbv zeta.
-  rewrite IH, aget_empty, hc_len_0.
-  destruct (N.eqb_spec 0 L) as [E|E].
-  - subst L. reflexivity.
-  - reflexivity.
-Qed.
-
-Lemma ex_inc_empty : forall n L, ex_inc aempty n L = 0.
-Proof.
-  intros n L. induction n as [|k IH]; cbn [ex_inc]; [reflexivity|]. cbv zeta.
-  rewrite IH, aget_empty, hc_len_0. reflexivity.
-Qed.
-
-Lemma RLI_init : forall split b,
-  (257 <= split <= 286)%Z ->
-  RLI split (mkRL b aempty aempty aempty aempty 0%Z (-1)%Z false).
-Proof.
-  intros split b Hs. unfold RLI. cbn [rl_inDist rl_curr rl_h rl_lc rl_dc rl_ex].
-  split; [intros _; lia|]. split; [intros Hc; discriminate|].
-  split; [intros i; rewrite aget_empty; exact ent_ok_0|].
-  split; [intros p _; apply aget_empty|].
-  split; [intros l Hl; rewrite aget_empty, count_len_empty by lia; reflexivity|].
-  split; [intros l Hl; rewrite aget_empty, count_len_empty by lia; reflexivity|].
-  split; [intros L; rewrite aget_empty; lia|].
-  intros L _. rewrite aget_empty, ex_dec_empty, ex_inc_empty. reflexivity.
-Qed.
-
-Lemma RLI_post : forall split st,
-  RLI split st -> rl_post (rl_h st) (rl_lc st) (rl_dc st) (rl_ex st).
-Proof.
-  intros split st (P1 & P2 & P3 & P4 & P5 & P6 & P7 & P8).
-  assert (Hh : huff_ok (rl_h st)) by (intros i; apply P3).
-  split.
-  - split; [exact Hh|]. split; [exact P5|]. split; [exact P7|exact P8].
-  - split; [exact Hh|]. split; [exact P6|].
-    pose proof (count_len_sum15 (rl_h st) 286 30) as Hsum. change (N.of_nat 30) with 30 in Hsum.
-    unfold sum15.
-    rewrite (P6 1), (P6 2), (P6 3), (P6 4), (P6 5), (P6 6), (P6 7), (P6 8), (P6 9), (P6 10),
-            (P6 11), (P6 12), (P6 13), (P6 14), (P6 15) by lia.
-    exact Hsum.
-Qed.
-
-(* ---------------------------------------------------------------- the theorem *)
-Theorem readLitDistLens_spec : forall s hdist hlit s' e,
-  readLitDistLens s hdist hlit = (s', e) -> hdist <= 29 -> hlit <= 29 ->
-  br_inv (rd s) -> (0 <= r_len (rd s))%Z -> clc_ok (dyn s) ->
-  litAndDistHuff (dyn s) = aempty -> litCount (dyn s) = aempty -> distCount (dyn s) = aempty ->
-  litExpandCount (dyn s) = aempty ->
-  (e = ENone \/ e = EEndInput \/ e = EInvalidBlock) /\
-  br_inv (rd s') /\
-  (e = EEndInput -> r_inlen (rd s') = 0) /\
-  (avail (rd s') <= avail (rd s))%Z /\ r_inlen (rd s') <= r_inlen (rd s) /\
-  (-80 <= r_len (rd s'))%Z /\
-  (e = ENone -> rl_post (litAndDistHuff (dyn s')) (litCount (dyn s')) (distCount (dyn s'))
-                        (litExpandCount (dyn s'))) /\
-  same_outer s s' /\
-  clcShort (dyn s') = clcShort (dyn s) /\ clcLong (dyn s') = clcLong (dyn s) /\
-  codeList (dyn s') = codeList (dyn s) /\ nextCode (dyn s') = nextCode (dyn s) /\
-  lenHuffCodes (dyn s') = lenHuffCodes (dyn s).
-Proof.
-  intros s hdist hlit s' e Hrun Hd Hl Hb Hlen Hclc Hh Hlc Hdc Hex.
-  unfold readLitDistLens in Hrun. cbv zeta in Hrun.
-  assert (Hfuel : Z.of_nat small_fuel = 1024%Z) by reflexivity.
-  set (fuel := small_fuel) in *. clearbody fuel.
-  rewrite Hh, Hlc, Hdc, Hex in Hrun.
-  unfold litLen, litTableSize in Hrun.
-  set (endv := Z.of_N (286 + hdist + 1)) in *.
-  set (split := Z.of_N (257 + hlit)) in *.
-  assert (Hs : (257 <= split <= 286)%Z) by (unfold split; lia).
-  assert (He : (287 <= endv <= 316)%Z) by (unfold endv; lia).
-  destruct (rl_loop fuel (clcShort (dyn s)) (clcLong (dyn s)) split endv
-              (mkRL (rd s) aempty aempty aempty aempty 0%Z (-1)%Z false)) as [st err] eqn:Erun.
-  apply pair_equal_spec in Hrun. destruct Hrun as [Hs' He']. subst s' e.
-  pose proof (rl_loop_spec fuel (clcShort (dyn s)) (clcLong (dyn s)) split endv _ st err
-                Hs He Hclc (RLI_init split (rd s) Hs)) as HS.
-  cbn [rl_b] in HS. specialize (HS Hb ltac:(lia)).
-  unfold vpos at 1 in HS. cbn [rl_inDist rl_curr] in HS.
-  specialize (HS ltac:(lia) Erun).
-  destruct HS as (A1 & A2 & A3 & A4 & A5 & A6 & A7). cbn [rl_b] in A5, A6.
-  unfold set_rd, set_dyn, set_dyn_counts.
-  cbn [rd dyn litAndDistHuff litCount distCount litExpandCount clcShort clcLong codeList nextCode
-       lenHuffCodes].
-  split; [exact A1|]. split; [exact A3|]. split; [exact A4|]. split; [exact A5|].
-  split; [exact A6|]. split; [lia|].
-  split; [intros _; apply (RLI_post split); exact A2|].
-  split; [unfold same_outer; cbn [inputNil ov tb phase bfinal litBlockLength headerBuffered
-                                  headerBuffer roffset]; repeat split; reflexivity|].
-  repeat split; reflexivity.
-Qed.
-
-Print Assumptions readLitDistLens_spec.
